@@ -2,9 +2,13 @@
 
 Theorems (lean/CffiVerif/Props/C23.lean) over the model of `_make_c_or_py_source`
 (lean/CffiVerif/Model/AtomicWrite.lean): crash_safe, complete_run_installs_new,
-same_content_no_ops, up_to_date_iff, identical_is_up_to_date_partial,
+same_content_no_ops, up_to_date_iff, identical_is_up_to_date_partial, tmp_name_differs_from_target,
 identical_with_cr_not_up_to_date (finding witness), fallback_not_crash_safe (Windows-only
 branch), render_perm_invariant, sortByKey_sorted_perm.
+
+The statements of `_make_c_or_py_source` (try body, handler, rename fallback, read-back limit, returned
+booleans, temp-name pattern) are re-extracted from recompiler.py on every run (translate/c23_atomic_write.py ->
+Generated/AtomicWriteOps.lean); the model's operation sequence and up-to-date test are built from them.
 
 Tie to the code and property oracles (all subprocesses run with PYTHONPATH = <rebuilt backend>:REPO/src):
   (i)   the real make_c_source / make_py_source run under strace: the sequence of system calls
@@ -43,13 +47,17 @@ MANIFEST = {
             "insertion order of declarations with distinct keys. Tied to the code by comparing the real system-call "
             "sequence (strace) with the model's operations, by killing the real function at every Python-level and "
             "system-call-level I/O step and comparing the surviving file with the model's state, and by regenerating "
-            "in fresh processes under different hash seeds, cdef chunkings and declaration orders.",
+            "in fresh processes under different hash seeds, cdef chunkings and declaration orders. The statements of the "
+            "function (try body, except-OSError handler, rename fallback, read-back limit, returned booleans, temp-name "
+            "pattern) are re-extracted from recompiler.py on every run and the model's operation sequence and up-to-date "
+            "test are built from them, so the theorems are re-checked against the source.",
     "note": "Modelled, not verified: rename(2) atomicity, O_TRUNC|O_CREAT semantics, no concurrent writer, durability "
             "without fsync is out of scope (crash = process death, not power loss). 'generation = render o sortByKey' "
             "is the modelling assumption validated by the determinism runs, render itself is uninterpreted. The "
             "Windows-only unlink+rename fallback is shown NOT crash safe in the model (fallback_not_crash_safe) and "
             "cannot be exercised on Linux.",
-    "technique": "Lean 4 proof (transition system over a path->file map, List.Perm for sorting) + strace-based "
+    "technique": "Lean 4 proof (transition system over a path->file map built from statements regenerated from the source, "
+                 "List.Perm for sorting) + strace-based "
                  "operation-sequence correspondence + exhaustive crash injection + multi-process determinism runs",
 }
 
@@ -77,16 +85,21 @@ CLASSES = {
 }
 
 
+def translators(ctx):
+    sys.path.insert(0, os.path.join(common.VERIF, "translate"))
+    import c23_atomic_write
+    return [c23_atomic_write.run]
+
+
 def known_or_fail(ctx, case, detail):
-    listed = set(f["class"] for f in ctx.open_findings)
-    for cls, pred in CLASSES.items():
-        if pred(case):
-            if cls in listed:
-                return ctx.fail(case, detail)
-            ctx.known_hits.setdefault(cls, {"case": case, "detail": detail})
-            ctx.count("known:" + cls)
-            return "known"
-    return ctx.fail(case, detail)
+    """The property fails at `case`; ctx.fail matches it against the classes listed in KNOWN_FINDINGS.jsonl."""
+    r = ctx.fail(case, detail)
+    if r == "known":
+        for cls, pred in CLASSES.items():
+            if pred(case):
+                ctx.count("known:" + cls)
+                break
+    return r
 
 
 # ------------------------------------------------------------------ the child process
